@@ -29,6 +29,8 @@ const maxPreallocSize = 64 * 1024
 // Paser represents a Redis serialization protocol (RESP) parser.
 type Parser struct {
 	reader io.Reader
+	// lineEnded is false when the last line was ended by the end of the stream instead of CRLF.
+	lineEnded bool
 }
 
 // NewParserWithReader returns a new parser for the specified reader.
@@ -57,13 +59,14 @@ func (parser *Parser) nextLineBytes() ([]byte, error) {
 	}
 	if err != nil {
 		if errors.Is(err, io.EOF) {
+			parser.lineEnded = false
 			return readBytes.Bytes(), nil
 		}
 		return nil, err
 	}
-
 	// Skips a next line field.
-	parser.read(readByte)
+	n, err = parser.read(readByte)
+	parser.lineEnded = n == 1
 
 	// Returns an empty byte array instead of nil
 	lenBytes := readBytes.Bytes()
